@@ -479,6 +479,69 @@ def bilinear(case):
     return m
 
 
+ADAPTIVE_ATOMS = {
+    # name: (builder of the expression from the adaptive entry v (scalar) and a static pinned w, NumPy value at y, w; curvature)
+    'abs': (lambda rso, v, w: abs(v), lambda y, w: abs(y), 'convex'),
+    'square': (lambda rso, v, w: rso.square(v), lambda y, w: y ** 2, 'convex'),
+    'exp': (lambda rso, v, w: rso.exp(v), lambda y, w: np.exp(y), 'convex'),
+    'softplus': (lambda rso, v, w: rso.softplus(v), lambda y, w: np.log1p(np.exp(y)), 'convex'),
+    'norm1': (lambda rso, v, w: rso.norm(rso.concat((v, w)), 1), lambda y, w: abs(y) + abs(w), 'convex'),
+    'norm2': (lambda rso, v, w: rso.norm(rso.concat((v, w))), lambda y, w: float(np.hypot(y, w)), 'convex'),
+    'norminf': (lambda rso, v, w: rso.norm(rso.concat((v, w)), 'inf'), lambda y, w: max(abs(y), abs(w)), 'convex'),
+    'sumsqr': (lambda rso, v, w: rso.sumsqr(rso.concat((v, w))), lambda y, w: y ** 2 + w ** 2, 'convex'),
+    'maxof': (lambda rso, v, w: rso.maxof(v, 2 * v - 1, w), lambda y, w: max(y, 2 * y - 1, w), 'convex'),
+    'log': (lambda rso, v, w: rso.log(v + 4), lambda y, w: np.log(y + 4), 'concave'),
+    'offset:abs': (lambda rso, v, w: abs(w) + v, lambda y, w: abs(w) + y, 'convex'),
+    'offset:exp': (lambda rso, v, w: rso.exp(w) + v, lambda y, w: np.exp(w) + y, 'convex'),
+    'offset:norm2': (lambda rso, v, w: rso.norm(rso.concat((w, w))) - v, lambda y, w: np.sqrt(2) * abs(w) - y, 'convex'),
+    'scale:pexp': (lambda rso, v, w: rso.pexp(w, v + 4), lambda y, w: (y + 4) * np.exp(w / (y + 4)), 'convex'),
+    'arg:pexp': (lambda rso, v, w: rso.pexp(v, w + 3), lambda y, w: (w + 3) * np.exp(y / (w + 3)), 'convex'),
+}
+
+
+def adaptive_atom(case):
+    """a convex / concave atom of an affinely adaptive dro decision y(z) = a + b z over z in [-1, 1]: either refused, or the
+    constraint atom(y(z)) <= t has to hold for every z (minimal t = max over the two end points, the atom being convex)"""
+    import rsome as rso
+    from rsome import dro
+    a, b, wv = case['a'], case['b'], case['w']
+    build, value, curv = ADAPTIVE_ATOMS[case['atom']]
+    labels = ['adaptive_atom:' + case['atom'], 'adaptive_atom:how:' + case['how']]
+    m = dro.Model(case['S'])
+    t, w = m.dvar(), m.dvar()
+    y = m.dvar(2)
+    z = m.rvar()
+    fs = m.ambiguity()
+    fs.suppset(z >= -1, z <= 1)
+    m.minsup(t, fs)
+    if case['how'] == 'whole':
+        y.adapt(z)
+    else:
+        y[0].adapt(z)
+    try:
+        e = build(rso, y[0], w)
+        c = (e <= t) if curv == 'convex' else (e >= -t)
+        m.st(c)
+    except Exception as ex:
+        return Outcome.ok(True, labels + ['adaptive_atom:refused:' + type(ex).__name__])
+    m.st(y[0] == a + b * z, w == wv, y[1] == 0)
+    with quiet():
+        from rsome import eco_solver
+        m.solve(eco_solver, display=False)
+    sol = m.solution
+    if sol is None or sol.x is None or np.isnan(sol.objval) or 'lose' in str(sol.status):
+        return Outcome.inconclusive('adaptive_atom_not_solved', labels)
+    got = m.get()
+    ends = [float(value(a + b * zz, wv)) for zz in (-1.0, 1.0)]
+    truth = max(ends) if curv == 'convex' else max(-v for v in ends)
+    if got < truth - 2e-4 * (1 + abs(truth)):
+        return Outcome.fail('adaptive_atom_not_robust:' + case['atom'].split(':')[0],
+                            'dro: %s of the affinely adaptive decision y(z) = %g %+g z was accepted; minimising t subject to it gives %.6g, but the '
+                            'constraint needs t >= %.6g at an end point of z in [-1, 1] (the slope of the decision is ignored)' % (
+                                case['atom'], a, b, got, truth), labels)
+    return Outcome.ok(True, labels + ['adaptive_atom:accepted_and_robust'])
+
+
 class C10(Prop):
     id = 'C10'
     rule = ('atom (every convex/concave atom incl. perspectives, piecewise max/min, summed exp/log; ro and dro; one case in six: maxof/minof of '
@@ -516,6 +579,8 @@ class C10(Prop):
             return Outcome.fail('bilinear_accepted:' + case['which'] + (':' + case.get('derived', '') if case['which'].endswith('_derived') else ''), 'a bilinear product (%s%s) was accepted as %s' % (case['which'], ' via ' + case.get('derived', '') if case['which'].endswith('_derived') else '', case['use']), labels)
         if case['kind'] == 'pw':
             return pw_check(case)
+        if case['kind'] == 'adaptive_atom':
+            return adaptive_atom(case)
         exp = expected(case)
         a = case['atom']
         k, gc, g0 = calculus(case)
@@ -603,11 +668,15 @@ class C10(Prop):
                  for w in plain for n in (1, 2, 3) for use in ('constr', 'obj') for fr in ('ro', 'dro')]
         cases += [{'kind': 'bilinear', 'which': w, 'n': 2, 'use': use, 'front': 'dro' if w.startswith('dro') else 'ro', 'derived': d}
                   for w in ('dro_adapt_derived', 'ldr_derived') for d in ops for use in ('constr', 'obj')]
-        failures, labels, nt, samples = [], {}, [], []
+        cases += [{'kind': 'adaptive_atom', 'atom': at, 'a': a, 'b': b, 'w': 0.5, 'how': how, 'S': S}
+                  for at in sorted(ADAPTIVE_ATOMS) for (a, b) in ((1.0, 3.0), (-0.5, -2.0)) for how in ('whole', 'entry') for S in (1, 2)]
+        failures, labels, nt, samples, herrs = [], {}, [], [], []
         for case in cases:
-            out = self.check(case)
+            out = core_safe(self, case)
+            if out.status == 'harness_error' and len(herrs) < 3:
+                herrs.append({'msg': out.msg, 'case': case})
             for lb in out.labels:
-                if lb.startswith(('raised:', 'derivation_unsupported')):
+                if lb.startswith(('raised:', 'derivation_unsupported', 'adaptive_atom:refused', 'adaptive_atom:accepted', 'inconclusive')):
                     labels['enum:' + lb] = labels.get('enum:' + lb, 0) + 1
             if out.status == 'fail':
                 if not any(f['bucket'] == 'enum:' + out.bucket for f in failures):
@@ -617,8 +686,14 @@ class C10(Prop):
                 if len(samples) < 2:
                     samples.append(case)
         labels['enumerated_bilinear_cases'] = len(cases)
-        return {'evaluations': len(cases), 'labels': labels, 'failures': failures, 'harness_errors': [], 'nt_hashes': nt, 'samples': samples,
-                'coverage': {'exhaustive_bilinear_catalogue': '%d cases' % len(cases)}}
+        return {'evaluations': len(cases), 'labels': labels, 'failures': failures, 'harness_errors': herrs, 'nt_hashes': nt, 'samples': samples,
+                'coverage': {'exhaustive_bilinear_catalogue': '%d cases (incl. %d convex / concave atoms of an affinely adaptive dro decision)' % (
+                    len(cases), sum(1 for c in cases if c['kind'] == 'adaptive_atom'))}}
+
+
+def core_safe(prop, case):
+    from vf.core import safe_check
+    return safe_check(prop, case)
 
 
 PROP = C10()
